@@ -401,6 +401,11 @@ def check_history(ctx, pmi, rng, script=None):
             img = pmi.Image(None)
     sib_before = dict(sib.checksums) if sib is not None else None
     types = ["md5", "sha1", "sha256"]
+    if not script and rng.random() < 0.3:
+        # algorithm names are free text to the library and hashlib takes them in any case: 'SHA256' next to 'sha256' are two
+        # recorded entries, and adding one never touches the value recorded under the other
+        types = types + [rng.choice(["SHA256", "Sha256", "MD5", "Sha1", "SHA1"])]
+        ctx.count("history-algorithm-names-differing-in-case")
     alphabet = HEX if rng.random() < 0.6 else "0123456789ABCDEF"
     vals = dict((t, [text.chars(rng, alphabet, 8, 8) for _ in range(2)]) for t in types)
     ops = []
@@ -415,7 +420,7 @@ def check_history(ctx, pmi, rng, script=None):
         before = dict(img.checksums)
         had = before.get(t)
         if v and len(v) == 8 and sib is not None and not script:
-            v = v * 4 if t == "md5" else v * 5 if t == "sha1" else v * 8
+            v = v * 4 if t.lower() == "md5" else v * 5 if t.lower() == "sha1" else v * 8
             ops[step][1] = v
         if t in before:
             readd = True
